@@ -89,7 +89,29 @@ func regEditCase(e *env.Env, id int, op int64, denom string, bits int) (string, 
 	for _, x := range pre {
 		en.I(x[0]).I(x[1])
 	}
-	en.I(op).I(denomIDAny(e, denom)).I(bitsOfPerms(permsOfBits(bits))).Len(len(post))
+	en.I(op).I(denomIDAny(e, denom)).I(bitsOfPerms(permsOfBits(bits))).Len(0).Len(len(post))
+	for _, x := range post {
+		en.I(x[0]).I(x[1])
+	}
+	return en.Coq(), res
+}
+
+// regSetCase delivers a MsgSetRegistry (op 3) carrying the list given (which may be empty) and encodes registry before,
+// the list, registry after.
+func regSetCase(e *env.Env, id int, entries []*tokenregistrytypes.RegistryEntry) (string, chain.TxResult) {
+	pre := regList(e)
+	res := e.Tx(e.Admin, &tokenregistrytypes.MsgSetRegistry{From: e.Admin.Addr.String(), Registry: &tokenregistrytypes.Registry{Entries: entries}})
+	post := regList(e)
+	en := &env.Enc{}
+	en.I(int64(id)).Len(len(pre))
+	for _, x := range pre {
+		en.I(x[0]).I(x[1])
+	}
+	en.I(3).I(0).I(0).Len(len(entries))
+	for _, x := range entries {
+		en.I(denomIDAny(e, x.Denom)).I(bitsOfPerms(x.Permissions))
+	}
+	en.Len(len(post))
 	for _, x := range post {
 		en.I(x[0]).I(x[1])
 	}
@@ -322,6 +344,35 @@ func C12(c Ctx) *report.Report {
 		rep.Count("corpus.duplicate-denom-deregister")
 		next++
 	}
+	// corpus: the administrator replaces the registry by a shorter one (empty; rowan only): from the next message on the
+	// tokens it no longer lists are unknown to the AMM
+	for variant := 0; variant < 2; variant++ {
+		e := env.New(env.Opts{NUsers: 3, Tokens: []string{"ceth", "cusdc"}})
+		e.BeginBlock()
+		mustOK(e.UpdateRewardsParams(0, 0, 0, "", false), "rewards params")
+		mustOK(e.CreatePool(e.Users[0], "ceth", new(big.Int).Mul(big.NewInt(1000), chain.E(18)), new(big.Int).Mul(big.NewInt(2000), chain.E(18))), "create")
+		mustOK(e.AddLiquidity(e.Users[1], "ceth", chain.E(18), new(big.Int).Mul(big.NewInt(2), chain.E(18))), "add")
+		var l []*tokenregistrytypes.RegistryEntry
+		if variant == 1 {
+			l = append(l, regEntry("rowan", 7))
+		}
+		rc, res := regSetCase(e, 700020+variant, l)
+		desc := map[string]interface{}{"corpus": "MsgSetRegistry with a shorter list, then AMM messages on a token it no longer lists", "entries_in_the_message": len(l), "set_registry_code": res.Code}
+		if res.Code == 0 {
+			reCases = append(reCases, rc)
+			if got := len(regList(e)); got != len(l) {
+				rep.Violate("C12/set-registry-not-in-force", fmt.Sprintf("after an accepted MsgSetRegistry with %d entries the registry lists %d", len(l), got), desc)
+			}
+			sw := e.Swap(e.Users[1], "rowan", "ceth", chain.E(18), big.NewInt(0))
+			ad := e.AddLiquidity(e.Users[1], "ceth", chain.E(18), new(big.Int).Mul(big.NewInt(2), chain.E(18)))
+			rm := e.RemoveLiquidity(e.Users[1], "ceth", 5000, 0)
+			if sw.Code == 0 || ad.Code == 0 || rm.Code == 0 {
+				rep.Violate("C12/amm-after-registry-replaced", fmt.Sprintf("after MsgSetRegistry without ceth: swap code %d, add code %d, remove code %d", sw.Code, ad.Code, rm.Code), desc)
+			}
+		}
+		rep.Count("corpus.registry-replaced-by-shorter")
+		next++
+	}
 	// corpus: MsgRegister of a denom that is already registered replaces its entry, wherever it stands in the list (first,
 	// middle, last); the gate then follows the new permissions
 	for pos := 0; pos < 3; pos++ {
@@ -371,6 +422,18 @@ func C12(c Ctx) *report.Report {
 			continue
 		}
 		for k := 0; k < 4; k++ {
+			if rng.Intn(4) == 0 { // the whole list replaced: by nothing, by one entry, by several
+				var l []*tokenregistrytypes.RegistryEntry
+				for q := 0; q < []int{0, 0, 1, 3}[rng.Intn(4)]; q++ {
+					l = append(l, regEntry(denoms[rng.Intn(len(denoms))], rng.Intn(32)))
+				}
+				rc, res := regSetCase(e, 710000+i*10+k, l)
+				if res.Code == 0 {
+					reCases = append(reCases, rc)
+				}
+				rep.Count(fmt.Sprintf("registry-edit.set-registry-%d-entries", len(l)))
+				continue
+			}
 			rc, _ := regEditCase(e, 710000+i*10+k, int64(1+rng.Intn(2)), denoms[rng.Intn(len(denoms))], rng.Intn(32))
 			reCases = append(reCases, rc)
 			rep.Count("registry-edit")
